@@ -922,7 +922,7 @@ def schema_stats(S):
 # C14 families: one count field, two (or more) messages, definitions that are identical / different / colliding
 
 def partner(xs, ys, x):
-    """the colliding last tag computed by the Lean driver from the proved formula (Props.C14.C14_finding_collision_any)"""
+    """the colliding last tag computed by the Lean driver from the proved formula (Props.C14.C14_key_collision_any)"""
     fmt = lambda l: ','.join(map(str, l)) or '-'
     return int(vlib.run_driver('f8c', ['partner %d %s %s' % (x, fmt(xs), fmt(ys))])[0])
 
@@ -1003,7 +1003,7 @@ def fam_reuse_boundary(rng, b=None):
 
 
 def fam_reuse_order(rng, b=None):
-    """KNOWN class: same members, different order"""
+    """same members, different order (equal structural hash: formerly the known class group-hash-collision)"""
     b = b or Builder(rng, 'reuse-order')
     fs = [b.field(rng.choice(['INT', 'STRING', 'CHAR']), '') for _ in range(rng.randrange(2, 5))]
     d1 = [('f', f, 'Y' if i == 0 else req(rng)) for i, f in enumerate(fs)]
@@ -1014,7 +1014,7 @@ def fam_reuse_order(rng, b=None):
 
 
 def fam_reuse_flag(rng, b=None):
-    """KNOWN class: same members and order, one mandatory flag differs"""
+    """same members and order, one mandatory flag differs (equal structural hash)"""
     b = b or Builder(rng, 'reuse-flag')
     fs = [b.field(rng.choice(['INT', 'STRING', 'CHAR']), '') for _ in range(rng.randrange(2, 5))]
     d1 = [('f', f, 'Y') for f in fs]
@@ -1025,7 +1025,7 @@ def fam_reuse_flag(rng, b=None):
 
 
 def fam_reuse_component(rng, b=None):
-    """KNOWN class: same members, in one message they come from a component (component index differs)"""
+    """same members, in one message they come from a component (component index differs; equal structural hash)"""
     b = b or Builder(rng, 'reuse-component')
     fs = [b.field(rng.choice(['INT', 'STRING']), '') for _ in range(2)]
     b.comps.append(('Blk', [('f', fs[1], 'N')]))
@@ -1035,7 +1035,7 @@ def fam_reuse_component(rng, b=None):
 
 
 def fam_reuse_collision(rng, fixed=None):
-    """KNOWN class: different member sets with the same hash, manufactured with the proved partner formula"""
+    """different member sets with the same structural hash, manufactured with the proved partner formula"""
     for _ in range(200):
         if fixed:
             xs, ys, x = fixed
@@ -1062,7 +1062,9 @@ def fam_reuse_collision(rng, fixed=None):
 
 
 VALID_REUSE = [fam_reuse_identical, fam_reuse_distinct, fam_reuse_overlap, fam_reuse_nested_only, fam_reuse_boundary]
+# equal-key families: the fixed f8c must generate every definition separately (before the fix: known finding group-hash-collision)
 KNOWN_REUSE = [fam_reuse_order, fam_reuse_flag, fam_reuse_component, fam_reuse_collision]
+SAMEKEY_REUSE = KNOWN_REUSE
 
 
 # ------------------------------------------------------------------------------------------------
@@ -1341,9 +1343,7 @@ def run_tv(res, *, module, theorems, cases, per_msg=2, san='asan', what=''):
                     if probs:
                         this_failed = True
                         klass = None
-                        if 'collision' in mclasses and impl == md and all('/' in p.split(':')[0] for p in probs):
-                            klass = 'group-hash-collision'      # the model predicts exactly these tables, all discrepancies are inside group levels
-                        elif 'depth3' in mclasses and impl == md and all('mandatory=' in p for p in probs):
+                        if 'depth3' in mclasses and impl == md and all('mandatory=' in p for p in probs):
                             klass = 'optional-outer-component-ignored'
                         fail(c, cl, 'generated metadata does not match the schema: %s [%s: %s]' % ('; '.join(probs[:3])[:600], S.get('fam'), S.get('note', '')[:120]), klass)
                 # messages through the generated codec
@@ -1372,9 +1372,7 @@ def run_tv(res, *, module, theorems, cases, per_msg=2, san='asan', what=''):
                             tys = set()
                             tree_types(tree, bynum, tys)
                             klass = None
-                            if 'collision' in mclasses and impl == md:
-                                klass = 'group-hash-collision'
-                            elif tys & {'TZTIMEONLY', 'TZTIMESTAMP'}:
+                            if tys & {'TZTIMEONLY', 'TZTIMESTAMP'}:
                                 klass = 'tz-field-types-lose-value'
                             elif 'depth3' in mclasses and 'MissingMandato' in e:
                                 klass = 'optional-outer-component-ignored'
